@@ -16,6 +16,13 @@ Implementation-side search (the Coq side lives in coq/theories/Properties/C20.v 
      `json.dumps(result, indent=2)` (server.py:handle_call_tool) accepts;
  (e) failures are attributed to a known finding only through the precise predicates in `_classify_*`.
 
+Repair 88905cd (octave_eject converts holographic values and nested META blocks): the classifier branch for
+TypeError out of `json.dumps(data)` is GONE -- such a raise is an unattributed failure again -- and the two former
+witnesses are regressions (corpus/C20/fixed-88905cd-*.json, kind `tool-regression`): every mode x format returns an
+envelope, the json view parses and holds the pattern text as a string leaf, the yaml view is safe_load-able, the
+markdown view has no ` object at 0x` / `Token(`.  The flow model lists the json.dumps site as benign; a raise there is
+reported as a refuted assumption (correspondence failure) on top of the property failure.
+
 Self-test switches (environment variable C20_SELFTEST, applied inside the workers and in --replay); each of
 them must turn the check red (exit 1 with a VIOLATION line):
    parser_keyerror  parse() raises KeyError on every text containing "true null"
@@ -206,6 +213,11 @@ CURATED = [
     "META:\n  A::1\n  A::2\n  B:\n    C::1\n    C::2\n// c\nK::v\n",
     "K::\u00a7\nL::\u00a7 \u00a7\nM::A\u2192\u00a71\n",
     "===D===\nK::v\n===END===\n===E===\nM::1\n===END===\n",
+    # holographic values and nested META blocks with lists in every position (regression domain of repair 88905cd)
+    '===D===\nMETA:\n  TYPE::"T"\n  PATTERN::["x"\u2227REQ\u2192\u00a7SELF]\n  TAGS::[["y"\u2227OPT],a,[b,["z"\u2227REQ]]]\n  N:\n    L::[a,["x"\u2227REQ],[k::1]]\n    H::["x"\u2227REQ\u2192\u00a7SELF]\n    E::[]\n    S::v\n  N2:\n    M::[[k::["x"\u2227OPT]],b]\n'
+    'STATUS::["ACTIVE"\u2227REQ\u2227ENUM[ACTIVE,DONE]]\nRISKS::[["r"\u2227OPT],[k::["q"\u2227OPT]],[["n"\u2227REQ]]]\nTESTS:\n  CI::["c"\u2227REQ\u2192\u00a7SELF]\n  DEPS:\n    X::[a,["d"\u2227OPT]]\n===END===\n',
+    '===D===\nMETA:\n  N:\n    L::[a,b]\n===END===\n',
+    '===D===\nMETA:\n  N:\n    Z::\n```py\ncode\n```\n    L::[[1,[2]],[k::v,j::[a,b]]]\n  M:\n    H::["x"\u2227REQ]\n\u00a71::S\n  K::["x"\u2227REQ\u2192\u00a7SELF]\nK::["x"\u2227REQ]\nK::[["x"\u2227REQ]]\n===END===\n',
 ]
 
 ATOMS = ["A", "abc", '"x"', '"a b"', "1", "-2", "1.5", "true", "null", "$V", "1.2.3", "REQ", "OPT", "DATE", "ISO8601", "DIR",
@@ -561,51 +573,6 @@ def _escape_site(cls, frames):
     return None
 
 
-def _reach(doc, cls_names):
-    """Does a value of one of the classes occur at a position _ast_to_dict hands to json/yaml unchanged?
-    Mirrors mcp/eject.py:_ast_to_dict/_convert_value/_convert_block exactly (Sections are skipped there,
-    nested META dicts are passed through unconverted)."""
-    from octave_mcp.core.ast_nodes import Assignment, Block, InlineMap, ListValue, LiteralZoneValue
-    hits = set()
-
-    def conv(v):
-        if isinstance(v, LiteralZoneValue):
-            return
-        if isinstance(v, ListValue):
-            for it in v.items:
-                conv(it)
-        elif isinstance(v, InlineMap):
-            for x in v.pairs.values():
-                conv(x)
-        else:
-            raw(v)
-
-    def raw(v):   # what json.dumps sees
-        if isinstance(v, dict):
-            for x in v.values():
-                raw(x)
-        elif isinstance(v, (list, tuple)):
-            for x in v:
-                raw(x)
-        elif type(v).__name__ in cls_names:
-            hits.add(type(v).__name__)
-
-    def block(b):
-        for ch in b.children:
-            if isinstance(ch, Assignment):
-                conv(ch.value)
-            elif isinstance(ch, Block):
-                block(ch)
-    for v in (doc.meta or {}).values():
-        conv(v)
-    for s in doc.sections:
-        if isinstance(s, Assignment):
-            conv(s.value)
-        elif isinstance(s, Block):
-            block(s)
-    return hits
-
-
 def _classify_tool(tool, args, exc, frames, setup=None):
     """Precise predicates for the known tool findings. -> finding id or None."""
     ps = _W["ps"]
@@ -615,16 +582,7 @@ def _classify_tool(tool, args, exc, frames, setup=None):
         if fr[1] == "execute" and fr[0].startswith("mcp/"):
             site = fr
     try:
-        if tool == "octave_eject" and args.get("format") == "json" and isinstance(exc, TypeError) and isinstance(content, str) \
-                and site is not None and "json.dumps(data" in site[3] and "is not JSON serializable" in str(exc):
-            from octave_mcp.core.projector import project
-            doc = project(ps.parse(content), mode=args.get("mode", "canonical")).filtered_doc
-            hits = _reach(doc, {"HolographicValue", "ListValue", "InlineMap", "LiteralZoneValue"})
-            m = re.search(r"Object of type (\w+) is not JSON serializable", str(exc))
-            if m and m.group(1) in hits:
-                if m.group(1) == "HolographicValue":
-                    return "C20-eject-json-holographic"
-                return "C20-eject-json-nested-meta"
+        # (no clause for octave_eject(format=json): C20-eject-json-holographic / -nested-meta were repaired by 88905cd)
         # compile_gbnf_from_meta(meta) with META.CONTRACT present and META.TYPE not a string
         if ((tool == "octave_eject" and args.get("format") == "gbnf") or
             (tool == "octave_compile_grammar" and args.get("format", "gbnf") == "gbnf")) and isinstance(content, str) \
@@ -1142,6 +1100,9 @@ def run_case(case):
         r = tool_one(case["tool"], case["args"], case.get("setup"))
         f = r["failure"]
         return (f is not None, (f or {}).get("what", r["outcome"]), (f or {}).get("finding"), f or r["outcome"])
+    if kind == "tool-regression":
+        bad = regression_tool(case)
+        return (bool(bad), bad[0]["what"] if bad else "regression passes", None, bad or "ok")
     if kind == "timing":
         sl = measure_family_inproc(case["family"], case.get("scales", [1, 2, 4, 8, 16]))
         bad = {k: sl[k] for k in ("tokenize", "parse") if superlinear(sl, k)}
@@ -1153,6 +1114,50 @@ def run_case(case):
         f = r["failures"][0]
         return (True, f["what"], f.get("finding"), r["failures"])
     return (False, "outcomes " + ",".join(r["outcomes"]), None, r["outcomes"])
+
+
+def regression_tool(case):
+    """Witness of a REPAIRED octave_eject finding: all modes x all formats must return a serialisable envelope; in the
+    whole-document modes the json view parses and holds `expect_string_leaf`, the yaml view is safe_load-able and holds
+    it, the markdown view shows it and contains no default object repr / token dump.  -> list of failure dicts."""
+    import asyncio
+    import yaml
+    bad = []
+    leaf = case.get("expect_string_leaf")
+    cls = _W["tools"][case["tool"]]
+
+    def leaves(v):
+        if isinstance(v, dict):
+            return [x for y in v.values() for x in leaves(y)]
+        if isinstance(v, list):
+            return [x for y in v for x in leaves(y)]
+        return [v]
+    for mode in MODES:
+        for fmt in FORMATS:
+            args = dict(case["args"], mode=mode, format=fmt)
+            r = tool_one(case["tool"], args, case.get("setup"))
+            if r["failure"] is not None:
+                bad.append(dict(r["failure"], what="regression %s: %s" % (case.get("fixed", "?"), r["failure"]["what"]), args=args))
+                continue
+            if mode not in ("canonical", "authoring") or fmt not in ("json", "yaml", "markdown"):
+                continue
+            out = asyncio.run(cls().execute(**args)).get("output", "")
+            try:
+                if fmt == "json":
+                    ok = leaf is None or leaf in leaves(json.loads(out))
+                    why = "json view lacks the string leaf %r" % leaf
+                elif fmt == "yaml":
+                    ok = leaf is None or leaf in leaves(yaml.safe_load(out))
+                    why = "yaml view lacks the string leaf %r" % leaf
+                else:
+                    marks = [m for m in (" object at 0x", "Token(") if m in out]
+                    ok = not marks and (leaf is None or leaf in out)
+                    why = "markdown view contains %r" % marks[0].strip() if marks else "markdown view lacks the text %r" % leaf
+            except Exception as e:  # noqa  -- json does not parse / yaml is not safe_load-able
+                ok, why = False, "%s view cannot be read back: %s" % (fmt, type(e).__name__)
+            if not ok:
+                bad.append({"what": "regression %s: %s" % (case.get("fixed", "?"), why), "args": args, "finding": None})
+    return bad
 
 
 def measure_family_inproc(family, scales):
